@@ -234,8 +234,14 @@ def rand_graph(rng, n=3, tasks=True):
     for i in ids:
         if g[i]["cls"] == "DH":
             k2s = [j for j in ids if g[j]["cls"] in ("K2", "K2Old", "K2Older") and not g[j].get("dflt")]
-            how = rng.choice(["copy", "copy", "edited", "explicit"])
-            if how == "explicit" and k2s:
+            how = rng.choice(["copy", "copy", "edited", "explicit", "sub"])
+            if how == "sub":
+                # a value of a sub-class with the parameters of the default: it is not the default
+                m = i + "s"
+                g[m] = {"cls": rng.choice(["K2Old", "K2Older"]), "vals": {"a": ["int", 1], "c": ["none"], "v": ["int", 4]},
+                        "meta": "none", "pre": [], "init": [], "task": "0"}
+                g[i]["vals"]["child"] = ["cfg", m]
+            elif how == "explicit" and k2s:
                 g[i]["vals"]["child"] = ["cfg", rng.choice(k2s)]
             else:
                 m = i + "d"
